@@ -5,6 +5,9 @@
 (* Learn, Advance (reset or carry the successor), Return.  The environment is *)
 (* nondeterministic: any episode ends after 1..MaxEpLen steps by termination  *)
 (* or truncation.  Observations are tags <<ep, t>> (device D1).               *)
+(* The routine's value estimate is abstracted to `row`, the action values it   *)
+(* holds at the observation the environment returned last (constant Rows):    *)
+(* PolicyAct picks a maximiser of the row as it is NOW; Learn may change it.  *)
 (*                                                                            *)
 (* The clause operators (CanStep, StoreMatches, CondMatches, ...) are the     *)
 (* single source of truth: the actions below use them as guards/effects and   *)
